@@ -260,6 +260,131 @@ fn check(c: &Case, obs: &mut Obs) -> Result<(), String> {
     Ok(())
 }
 
+/// denominators beyond 2^31 (up to 2^61): only operations whose exact result fits 64 bits
+#[derive(Clone, Debug, Serialize, Deserialize)]
+pub struct WCase {
+    pub n: i64,
+    pub d: i64,
+    pub bn: i64,
+    pub k: i64,
+    pub bound: i64,
+}
+
+fn check_wide(c: &WCase, obs: &mut Obs) -> Result<(), String> {
+    const LIM: i128 = 1i128 << 62;
+    let d = c.d.clamp(1, (1i64 << 61) - 1);
+    let n = c.n.clamp(-(1i64 << 62) + 1, (1i64 << 62) - 1);
+    let bn = if d == 1 { 1 } else { c.bn.rem_euclid(2 * d) - d + 1 }; // in (-d, d]
+    let pa = guarded("Phase::new", || mk(n, d))?;
+    let pb = guarded("Phase::new", || mk(bn, d))?;
+    let ca = canon(n as i128, d as i128);
+    let cb = canon(bn as i128, d as i128);
+    obs.class_if(ca.1 > (1 << 31), "denominator>2^31");
+    obs.class_if(ca.1 > (1i128 << 48), "denominator>2^48");
+    if ca.1 > (1 << 31) {
+        obs.nontrivial();
+    }
+    if of(pa) != ca {
+        return Err(format!("Phase::new({n}/{d}) stores {:?}, canonical representative is {ca:?}", of(pa)));
+    }
+    if of(pb) != cb {
+        return Err(format!("Phase::new({bn}/{d}) stores {:?}, canonical representative is {cb:?}", of(pb)));
+    }
+    if pa.normalize() != pa {
+        return Err("normalize() of a stored phase changes it".into());
+    }
+    let neg = guarded("neg", || -pa)?;
+    if of(neg) != canon(-ca.0, ca.1) {
+        return Err(format!("-{ca:?} = {:?}", of(neg)));
+    }
+    // same-denominator sums: every intermediate of the exact computation stays below 2^63
+    let sum = guarded("add", || pa + pb)?;
+    let want = canon(ca.0 * cb.1 + cb.0 * ca.1, ca.1 * cb.1);
+    if of(sum) != want {
+        return Err(format!("{ca:?} + {cb:?} = {:?}, expected {want:?}", of(sum)));
+    }
+    let diff = guarded("sub", || pa - pb)?;
+    let want = canon(ca.0 * cb.1 - cb.0 * ca.1, ca.1 * cb.1);
+    if of(diff) != want {
+        return Err(format!("{ca:?} - {cb:?} = {:?}, expected {want:?}", of(diff)));
+    }
+    if (pa + neg) != Phase::zero() {
+        return Err("a + (-a) != 0".into());
+    }
+    // integer scaling where the exact product of the stored value fits
+    let k = c.k;
+    if (ca.0 * k as i128).abs() < LIM && (ca.1 * k as i128).abs() < LIM {
+        obs.class_if(k < 0, "negative-scalar");
+        let scaled = guarded("mul i64", || pa * k)?;
+        let want = canon(ca.0 * k as i128, ca.1);
+        if of(scaled) != want {
+            return Err(format!("{ca:?} * {k} = {:?}, expected {want:?}", of(scaled)));
+        }
+        let mut acc = pa;
+        guarded("mul_assign i64", || acc *= k)?;
+        if acc != scaled {
+            return Err(format!("{ca:?} *= {k} differs from {ca:?} * {k}"));
+        }
+        if k == -1 && scaled != neg {
+            return Err(format!("{ca:?} * -1 != -{ca:?}"));
+        }
+        if k != 0 {
+            let q = guarded("div i64", || pa / k)?;
+            let want = canon(ca.0, ca.1 * k as i128);
+            if of(q) != want {
+                return Err(format!("{ca:?} / {k} = {:?}, expected {want:?}", of(q)));
+            }
+        }
+    }
+    let pauli = ca.1 == 1;
+    if pa.is_pauli() != pauli || pa.is_clifford() != (ca.1 <= 2) || pa.is_proper_clifford() != (ca.1 == 2) || pa.is_t() != (ca.1 == 4) {
+        return Err(format!("classification of {ca:?} wrong"));
+    }
+    if pa.is_zero() != (ca.0 == 0) || pa.is_one() != (ca == (1, 1)) {
+        return Err("is_zero / is_one wrong".into());
+    }
+    // limit_denominator where the textbook algorithm's products stay inside 63 bits
+    let bound = c.bound.max(2);
+    if ca.1 * 4 * (bound as i128) < (1i128 << 63) {
+        let lim = guarded("limit_denominator", || pa.limit_denominator(bound))?;
+        let pl = py_limit(ca.0, ca.1, bound as i128);
+        let want = canon(pl.0, pl.1);
+        if of(lim) != want {
+            return Err(format!("limit_denominator({ca:?}, {bound}) = {:?}, Python's algorithm gives {pl:?} -> {want:?}", of(lim)));
+        }
+        obs.class("limit-denominator-checked");
+    }
+    // float round trip: the stored value within rounding
+    let f = pa.to_f64();
+    let exact = ca.0 as f64 / ca.1 as f64;
+    if (f - exact).abs() > 1e-15 {
+        return Err(format!("to_f64({ca:?}) = {f}, expected {exact}"));
+    }
+    Ok(())
+}
+
+fn wide_strategy() -> BoxedStrategy<WCase> {
+    let den = prop_oneof![
+        3 => (31u32..=60, -3i64..=3).prop_map(|(e, o)| (1i64 << e) + o),
+        2 => (1i64 << 31)..(1i64 << 61),
+        1 => (1i64 << 31)..(1i64 << 34),
+        1 => 1i64..(1i64 << 31),
+    ];
+    (den, any::<i64>(), -3i64..=3, any::<i64>(), prop_oneof![
+        4 => -8i64..=8,
+        1 => Just(-1i64),
+        2 => -1000i64..=1000,
+        1 => any::<i32>().prop_map(|x| x as i64),
+    ], prop_oneof![2i64..=64, 2i64..=100000])
+        .prop_map(|(d, r, turns, bn, k, bound)| {
+            // numerator: a residue in (-d, d] plus a few full/half turns, inside 62 bits
+            let base = r.rem_euclid(2 * d) - d + 1;
+            let n = (base as i128 + turns as i128 * d as i128).clamp(-(1i128 << 62) + 1, (1i128 << 62) - 1) as i64;
+            WCase { n, d, bn, k, bound }
+        })
+        .boxed()
+}
+
 #[derive(Clone, Debug, Serialize, Deserialize)]
 pub struct FCase {
     pub x: f64,
@@ -340,6 +465,7 @@ pub fn def(ctx: &Ctx) -> PropertyDef {
             },
             check,
         ),
+        Section::random("wide-denominators", ctx.cases(100000, 2000000), wide_strategy, check_wide),
         Section::random(
             "floats",
             ctx.cases(100000, 2000000),
